@@ -311,12 +311,24 @@ func (w *c15World) goChk(fn string, toks []string) string {
 			return e
 		}
 		r := num(0)
+		// the definition (lmathlib.c math_max/math_min): start with the first argument, replace it by a later one only
+		// when that one compares strictly greater/smaller — which also fixes the result for NaNs (a NaN never
+		// replaces anything, a leading NaN stays) and for zeros of different sign (the earlier one stays)
+		ref := xs[0]
+		for _, x := range xs[1:] {
+			if (fn == "max" && x > ref) || (fn == "min" && x < ref) {
+				ref = x
+			}
+		}
+		if !sameBits(r, ref) {
+			return fail("%s%v=%v(bits_%x) want %v(bits_%x)", fn, xs, r, math.Float64bits(r), ref, math.Float64bits(ref))
+		}
 		hasNaN := false
 		for _, x := range xs {
 			hasNaN = hasNaN || math.IsNaN(x)
 		}
 		if hasNaN {
-			break // the manual does not define the result with NaN arguments; only "no error" is checked
+			break
 		}
 		isArg := false
 		for _, x := range xs {
@@ -990,6 +1002,10 @@ func genC15Math(run *Run, r *Rng, nops int) []Op {
 			n := r.Range(1, 6)
 			args := []string{"gochk", Pick(r, []string{"max", "min"})}
 			for k := 0; k < n; k++ {
+				if r.Chance(25) { // NaNs, zeros of both signs and infinities in every position
+					args = append(args, c15Num(Pick(r, []float64{math.NaN(), 0, math.Copysign(0, -1), math.Inf(1), math.Inf(-1), 1, -1})))
+					continue
+				}
 				args = append(args, numTok(r, gridVal(r)))
 			}
 			add(args...)
